@@ -450,6 +450,13 @@ let oracle_only_cases oc r =
       [ "{% for k, v in m %}{{ v }};{% endfor %}"; "{{ m|first }}|{{ m|keys|length }}|{% for v in m %}{{ v }}{% endfor %}";
         "{% for k, v in m|merge({'zz': 1}) %}{{ k }}={{ v }};{% endfor %}"; "{% for k, v in merge(m, {'zz': 1}) %}{{ v }},{% endfor %}" ])
     [ (9, 8); (9, 12); (10, 9); (10, 14) ];
+  (* values that contain themselves (the runner builds them from type 11: a map of n+1 entries one of which is the map
+     itself, and a list holding that map): the placeholder must not depend on where the walk meets the cycle *)
+  List.iter (fun n ->
+    List.iter (fun src -> raw oc "oracle-only" src [ (b "m", VStruct (nat_of_int 11, [ (b "M", skm n) ])) ])
+      [ "{{ m }}"; "{{ m.map }}|{{ m.list }}|{{ m.map|join(',') }}"; "{% for k, v in m.map %}{{ k }}={{ v }};{% endfor %}";
+        "{{ dump(m.map) }}|{{ '%v'|format(m.list) }}|{{ m.map|keys|join(',') }}|{{ m.map|length }}" ])
+    [ 3; 9 ];
   ignore r
 
 (* ---------------------------------------------------------------- date formats *)
